@@ -100,6 +100,15 @@ Theorem C09_truthful_closed : forall evs w, In (w, OClosed) (delivered (run curr
 Proof. exact truthful_closed_strong. Qed.
 Print Assumptions C09_truthful_closed.
 
+(* A caller that gives up (WaitForReceipt's context ends: it returns ctx.Err(), which is the caller
+   leaving, not an outcome of the monitor -- nothing is owed to it) does not act on the monitor at
+   all: erasing the event from any history gives the same state, so every OTHER waiter of the
+   transaction, the client's own waiter and the pending list are unaffected. *)
+Theorem C09_giveup_transparent : forall evs w evs',
+  run current (evs ++ GiveUp w :: evs') = run current (evs ++ evs').
+Proof. exact giveup_transparent. Qed.
+Print Assumptions C09_giveup_transparent.
+
 (* The fourth answer.  WaitForReceipt(h) returns the error "tx not found" when h has no sentTxs
    entry; such a caller is never registered and gets no channel outcome (it is not a "party
    waiting on a submitted transaction" in the sense of the property).  Reading adopted: the
